@@ -340,7 +340,10 @@ AUTO = [(None, t) for t in ("1+1", "t0(1)", "absx(1)", "{1}", "1 and 2", "1<2")]
 LONG_BRACES = "{error_message.__class__.__mro__}" + " " * 90 + "+ 1"
 LONG_OPEN = "(" + "{" * 120
 LONG_INDEX = "{0} {missing} %s %(x)s $x " + "a" * 100
-TEXTS = [(P.GLYCOLYSIS, LONG_BRACES), (P.GLYCOLYSIS, LONG_OPEN), (P.KREBS_CYCLE, LONG_INDEX), (P.OXIDATIVE, LONG_BRACES), (None, LONG_INDEX), (P.BETA_OXIDATION, LONG_OPEN)]
+SURROGATE_A = "'\ud83d' * 2"            # lone surrogates: not encodable as UTF-8
+SURROGATE_B = "len('caf\udce9')"
+TEXTS = [(P.GLYCOLYSIS, SURROGATE_A), (None, SURROGATE_B), (P.KREBS_CYCLE, SURROGATE_B), (P.OXIDATIVE, SURROGATE_A), (P.BETA_OXIDATION, SURROGATE_A),
+         (P.GLYCOLYSIS, LONG_BRACES), (P.GLYCOLYSIS, LONG_OPEN), (P.KREBS_CYCLE, LONG_INDEX), (P.OXIDATIVE, LONG_BRACES), (None, LONG_INDEX), (P.BETA_OXIDATION, LONG_OPEN)]
 REP_FORBIDDEN = [ast.Attribute, ast.Subscript, ast.Lambda, ast.JoinedStr, ast.NamedExpr, ast.Starred]
 INNER = list(ALLOWED_NODES) + REP_FORBIDDEN
 
